@@ -30,14 +30,13 @@ Proof.
 Qed.
 
 Definition rules_wfb (U : Z) (rules : list rule) : bool :=
-  forallb (fun r => forallb (wf_boxb U) (fst r) && negb (match fst r with [] => true | _ => false end) && ascending (map fst (snd r))) rules.
+  forallb (fun r => forallb (wf_boxb U) (fst r) && ascending (map fst (snd r))) rules.
 
 Lemma rules_wfb_ok U rules : rules_wfb U rules = true -> rules_wf U rules.
 Proof.
   unfold rules_wfb, rules_wf. rewrite forallb_forall, Forall_forall. intros H r Hr. specialize (H r Hr). destruct r as [reg s]. unfold rule_wf. cbn [fst snd] in *.
-  apply andb_true_iff in H as [H H3]. apply andb_true_iff in H as [H1 H2]. split; [|split].
+  apply andb_true_iff in H as [H1 H3]. split.
   - rewrite forallb_forall in H1. rewrite Forall_forall. intros b Hb. apply wf_boxb_ok. now apply H1.
-  - intros Hc. subst reg. discriminate H2.
   - now apply ascending_sorted.
 Qed.
 
